@@ -1,4 +1,5 @@
 import WmModel.Props.C07Locks
+import WmModel.Props.C07Close
 import WmModel.Props.C07Term
 import WmModel.Props.C05Reg
 import WmModel.Props.C07
@@ -21,3 +22,9 @@ import WmModel.Props.C07
 #print axioms Wm.GcReg.writers_exclusive
 #print axioms Wm.GcReg.topic_mutex_exclusive
 #print axioms Wm.GcReg.publish_and_subscribe_regions_exclusive
+#print axioms Wm.GcReg.close_never_stuck
+#print axioms Wm.GcReg.quiescent_closed
+#print axioms Wm.GcReg.thread_steps_bounded
+#print axioms Wm.GcReg.close_terminates
+#print axioms Wm.GcReg.after_close_returned
+#print axioms Wm.GcReg.close_dissolves_deadlock
